@@ -112,6 +112,25 @@ def r1_cfg_drop(text, extra_features=()):
         s = mm.end()
         while s < len(m) and m[s].isspace():
             s += 1
+        fm = re.match(r"[A-Za-z_]\w*\s*:(?!:)", m[s:])
+        if fm:
+            # a cfg'd field initializer inside a struct literal (`#[cfg(..)] f: expr,`): the field does not exist in the build under
+            # contract; drop it up to the next comma at this nesting depth
+            depth, e = 0, s
+            while e < len(m):
+                if m[e] in "([{":
+                    depth += 1
+                elif m[e] in ")]}":
+                    if depth == 0:
+                        break
+                    depth -= 1
+                elif m[e] == "," and depth == 0:
+                    e += 1
+                    break
+                e += 1
+            text = text[:mm.start()] + text[e:]
+            n += 1
+            continue
         e = _stmt_end(m, s)
         dropped = text[s:e]
         _check_dropped(dropped, "R1", ALLOWED_MACROS_R1)
